@@ -104,7 +104,7 @@ Qed.
 Definition mkp (acct : string) (line : Z) : posting :=
   mkPosting StNone (bs acct) (mkRng (mkPos line 5 0) (mkPos line 8 0)) None None None [] [] VNone rng0.
 Definition mkt (line : Z) (ps : list posting) : transaction :=
-  mkTx (mkDate 2024 1 1 (mkRng (mkPos line 1 0) (mkPos line 11 0))) None StNone [] (bs "x") [] [] ps [] [] rng0.
+  mkTx (mkDate 2024 1 1 (mkRng (mkPos line 1 0) (mkPos line 11 0))) None StNone [] (bs "x") [] [] rng0 ps [] [] rng0.
 Definition root_ast : journal := mkJournal [mkt 2 [mkp "a:b" 3]] [] [] [].     (* main.journal: uses a:b on line 3 *)
 Definition sub_ast : journal := mkJournal [mkt 1 [mkp "a:b" 2; mkp "c:d" 7]] [] [] [].  (* sub.journal: a:b on line 2 *)
 
